@@ -116,7 +116,8 @@ func c17Run(b *core.B) {
 		d := c17Data{iv: r.Intn(50), sv: pick(r, []string{"x", "y<z", "q\"uote", ""})}
 		ct := pick(r, []string{"", "", "text/html", "application/javascript"})
 		pre, post := pick(r, []string{"", "pre ", "<p>"}), pick(r, []string{"", " post", "</p>\n"})
-		kind := r.Intn(12)
+		kind := r.Intn(14)
+		secondRender := ""
 		var tmpl, want, kindName string
 		var wantTrace []string
 		wantErr := false
@@ -220,6 +221,17 @@ func c17Run(b *core.B) {
 			two := inl(&d, false)
 			body = saveBody
 			want = pre + one + ";" + two + ";" + fmt.Sprint(d.iv) + post
+		case 12: // a block declared in a partial's body, replayed by its layout
+			kindName = "contentFor-in-partial-contentOf-in-layout"
+			partials["page"] = "<% contentFor(\"side\") { %>" + body + "<% } %>main"
+			partials["lay"] = "L[<%= yield %>|<%= contentOf(\"side\") %>]"
+			tmpl = pre + "<%= partial(\"page\", " + d.lit(", layout: \"lay\"") + ") %>" + post
+			want = pre + "L[main|" + inl(&d, false) + "]" + post
+		case 13: // a block declared by one render, replayed by a later render on the same context
+			kindName = "contentFor-then-contentOf-in-a-second-render"
+			tmpl = pre + "<% contentFor(\"later\") { %>" + body + "<% } %>first" + post
+			secondRender = "second:<%= contentOf(\"later\", " + d.lit("") + ") %>"
+			want = pre + "first" + post + "\x00second:" + inl(&d, false)
 		case 7: // block helper: Block()
 			kindName = "block-helper"
 			tmpl = pre + "<%= cap() { %>" + body + "<% } %>" + post
@@ -237,7 +249,13 @@ func c17Run(b *core.B) {
 			continue
 		}
 		env := &progEnv{}
-		res := render(b, tmpl, c17Base(env, partials, ct))
+		ctxA := c17Base(env, partials, ct)
+		res := render(b, tmpl, ctxA)
+		if secondRender != "" && res.OK() {
+			r2 := render(b, secondRender, ctxA)
+			res.Out += "\x00" + r2.Out
+			res.Err, res.Pan = r2.Err, r2.Pan
+		}
 		b.Count("composition:" + kindName)
 		b.Count("contentType:" + ct)
 		if res.Pan != nil {
